@@ -69,7 +69,7 @@ fn check(h: &Multiboot2Header, mem: &[u8], tags: &[TagAt], base: usize) -> (Vec<
         let r = t.requests();
         c.eq("information_request.requests.len", r.len(), (b.len() - 8) / 4);
         c.eq("information_request.requests.addr", addr_of(r) - base, f.off + 8);
-        for (i, x) in r.iter().enumerate() {
+        for (i, x) in r.iter().enumerate().take((b.len() - 8) / 4) {
             c.eq("information_request.request", u32::from(*x), le32(b, 8 + 4 * i));
         }
     }
